@@ -286,6 +286,41 @@ impl PlainHdr {
     }
 }
 
+/// Verification hooks (feature `verif`): build / read a header field by field.
+#[cfg(feature = "verif")]
+impl PlainHdr {
+    /// `None` if a flag byte has bits that `decode` would refuse as well.
+    pub fn verif_from_parts(
+        flags: u8,
+        sess_id: u16,
+        sec_flags: u8,
+        ctr: u32,
+        src_nodeid: u64,
+        dst_nodeid: u64,
+    ) -> Option<Self> {
+        Some(Self {
+            flags: MsgFlags::from_bits(flags)?,
+            sess_id,
+            sec_flags: SecFlags::from_bits(sec_flags)?,
+            ctr,
+            src_nodeid,
+            dst_nodeid,
+        })
+    }
+
+    /// `(flags, sess_id, sec_flags, ctr, src_nodeid, dst_nodeid)`
+    pub fn verif_parts(&self) -> (u8, u16, u8, u32, u64, u64) {
+        (
+            self.flags.bits(),
+            self.sess_id,
+            self.sec_flags.bits(),
+            self.ctr,
+            self.src_nodeid,
+            self.dst_nodeid,
+        )
+    }
+}
+
 /// Verification hooks: raw access to the private fields (construction of arbitrary headers and
 /// observation of the decoded ones). Adds code only.
 #[cfg(feature = "verif")]
